@@ -9,4 +9,6 @@ root=$(cd "$(dirname "$0")/../.." && pwd)
 mkdir -p $root/.work/mutant-replays
 out=$(cd $root && PBSIM_MUTANT_DIFF=$patch PBSIM_SECS=$secs PBSIM_REPLAY_DIR=$root/.work/mutant-replays PBSIM_EVIDENCE_DIR=$root/.work/mutant-evidence ./check "$id" "$tier" 2>&1 | grep -v conda)
 echo "$out" | tail -6
-if echo "$out" | grep -q "^VIOLATION property=$id"; then echo "RESULT $(basename "$patch") $id: DETECTED"; else echo "RESULT $(basename "$patch") $id: MISSED"; fi
+if echo "$out" | grep -q "^VIOLATION property=$id"; then echo "RESULT $(basename "$patch") $id: DETECTED"
+elif echo "$out" | grep -q "building the instrumented worker .* failed\|patch failed\|PBSIM_MUTANT_DIFF"; then echo "$out" | grep -A8 "failed" | head -12; echo "RESULT $(basename "$patch") $id: BUILD-FAILED (not a result)"
+else echo "RESULT $(basename "$patch") $id: MISSED"; fi
